@@ -80,3 +80,28 @@ Example C17_ex :
   = s2l "new wl_surface@3a" /\
   parse (color true bad_color (s2l "wl_surface") ++ s2l ".commit") = parse (s2l "wl_surface.commit").
 Proof. vm_compute. split; reflexivity. Qed.
+
+(* ---- pasted back as a COMMAND (Proofs/PastedCommands.v) ---------------------------------------------------------
+   A typed line and its colour-stripped text resolve to the same command, the same argument text and the same
+   output lines (and hence run identically, C17_pasted_process_command), wherever the selection put the sequences:
+   around or inside words, before the first word (a sequence followed by a blank used to trip an assertion: D13,
+   repaired in /repo), after the last one.  Hypotheses, both necessary (PastedCommands.ex_settled_needed,
+   ex_fuel_needed): stripping once leaves nothing to strip (true of everything the tool itself coloured: no_color is
+   a single pass), and the line does not exceed the model's fuel of 200 prefix words. *)
+From WD Require Import PastedCommands.
+Theorem C17_pasted_command : forall fuel on c,
+  no_color (no_color c) = no_color c ->
+  has_oom (fst (resolve_cmd fuel on c)) = false ->
+  resolve_cmd fuel on (no_color c) = resolve_cmd fuel on c.
+Proof. exact pasted_command. Qed.
+Print Assumptions C17_pasted_command.
+
+Theorem C17_pasted_process_command : forall fuel s c,
+  no_color (no_color c) = no_color c ->
+  has_oom (fst (resolve_cmd fuel (s_color s) c)) = false ->
+  process_command fuel s (no_color c) = process_command fuel s c.
+Proof. exact pasted_process_command. Qed.
+Print Assumptions C17_pasted_process_command.
+
+Example C17_pasted_ex := ex_reset_list.
+Example C17_pasted_hyps := ex_reset_list_hyps.
